@@ -262,11 +262,38 @@ HistoryFailing(r) ==
     UNION {{IF n = 1 \/ f = "MACHINERY_malformed_case" THEN f ELSE "after_overwrite_" \o f : f \in PairFailing(HistCall(r, n))}
            : n \in DOMAIN r.calls}
 
+\* ---- sessions over several HTM objects in one process (world machine: HtmIdsWorldMC.tla) ---------------------
+\* record  [kind |-> "world", depths : Seq(Nat)  the depth of every live HTM object,
+\*          calls : Seq([op : "lookup" | "intersect" | "scribble", obj, pos, mode, target,
+\*                       err, id : limbs          what the call returned IN THE SESSION (lookup: the id; else <<0,0,0>>),
+\*                       dig : Seq(Int)           digest of the returned list (intersect: length, min, max, sum as limbs),
+\*                       ferr, fid, fdig          the same call, same arguments, as the ONLY call of a fresh process])]
+\* The steps were executed in this order in ONE process, all objects alive; "scribble" = the caller overwrote the array
+\* it was handed by step `target`.  Neither the objects nor the process have abstract state: every lookup is judged by
+\* the id clauses for the depth of ITS object, all lookups of one position agree across objects / entry forms, and every
+\* call equals the same call in a fresh world.
+WorldFailing(r) ==
+    LET C      == {n \in DOMAIN r.calls : r.calls[n].op # "scribble"}
+        L      == {n \in C : r.calls[n].op = "lookup" /\ r.calls[n].err = "none"}
+        dep(n) == r.depths[r.calls[n].obj]
+        dgs    == [n \in DOMAIN r.calls |-> HiDigits(r.calls[n].id)]
+    IN (IF \E n \in C : r.calls[n].err # "none" THEN {"session_unexpected_error"} ELSE {}) \cup
+       (IF \A n \in L : IdValid(dgs[n], dep(n)) THEN {} ELSE {"session_id_out_of_range_for_its_depth"}) \cup
+       (IF \A n, m \in L : (r.calls[n].pos = r.calls[m].pos /\ dep(n) < dep(m)) =>
+                               (VIsPrefix(dgs[n], dgs[m]) /\ Len(dgs[m]) - Len(dgs[n]) = dep(m) - dep(n))
+        THEN {} ELSE {"session_not_descendant_across_objects"}) \cup
+       (IF \A n, m \in L : (r.calls[n].pos = r.calls[m].pos /\ dep(n) = dep(m)) => r.calls[n].id = r.calls[m].id
+        THEN {} ELSE {"session_scalar_ne_array"}) \cup
+       (IF \A n \in C : (r.calls[n].err = "none" /\ r.calls[n].ferr = "none") =>
+                            (r.calls[n].id = r.calls[n].fid /\ r.calls[n].dig = r.calls[n].fdig)
+        THEN {} ELSE {"session_differs_from_fresh_world"})
+
 \* ---- dispatch ---------------------------------------------------------------------------------------
 Failing(r) == IF r.kind = "lookup" THEN LookupFailing(r)
               ELSE IF r.kind = "cover" THEN CoverFailing(r)
               ELSE IF r.kind = "pairs" THEN PairFailing(r)
               ELSE IF r.kind = "history" THEN HistoryFailing(r)
               ELSE IF r.kind = "scale" THEN ScaleFailing(r)
+              ELSE IF r.kind = "world" THEN WorldFailing(r)
               ELSE {"MACHINERY_unknown_kind"}
 =============================================================================
